@@ -357,11 +357,26 @@ func malform(r *run.Rand, f string, cl int) (string, bool) {
 			return r.Pick([]string{"-", "!", "(-)", "2(!)", "abs(-)"}), true
 		}
 		return f + tail, true
+	case 8: // a variable bracket that is not closed / not opened
+		t, ok := pick(func(t rtok) bool { return t.k == kBox })
+		if !ok {
+			if r.Intn(2) == 0 {
+				return "[" + f, true
+			}
+			return f + "]", true
+		}
+		if strings.Count(f, "[") != 1 {
+			return "", false // another bracket could pair with the one that is left
+		}
+		if r.Intn(2) == 0 {
+			return f[:t.end-1] + f[t.end:], true // "[x" ...
+		}
+		return f[:t.pos] + f[t.pos+1:], true // ... "x]"
 	}
 	return "", false
 }
 
-const malformClasses = 8
+const malformClasses = 9
 
 func hasAny(s string, subs ...string) bool {
 	for _, x := range subs {
